@@ -22,7 +22,7 @@ from pyvc.interp import Builtin, ClassVal, Env, Interp, PathState
 from pyvc.treeheap import LinksHeap
 from pyvc.values import IdStr, ListObj, Num, Obj, OutOfSubset, PyRaise
 
-from .common import REPO, Result, run_venv
+from .common import REPO, Result, run_venv, tierb_json
 
 NODE_KINDS = ("BinaryTreeNode", "AddExpression", "NegateExpression", "ConstantExpression", "VariableExpression")
 ORDERS = {"visit_preorder": "pre", "visit_inorder": "in", "visit_postorder": "post"}
@@ -437,7 +437,7 @@ def run(tier: str, seed: int) -> int:
     if p.returncode not in (0, 1):
         R.engine_errors.append("tier-B failed: " + p.stderr[-300:])
     else:
-        bounded = json.loads(p.stdout)
+        bounded = tierb_json(p, R)
         for f in bounded.get("failures", [])[:4]:
             R.violation(f"bounded check on real code: traversal/look-up {f}", {"failure": f}, True)
     R.level = "proof" if not R.undecided else "other"
